@@ -121,6 +121,17 @@ fn main() {
             }
         }
     }
+    // partially resolved diagrams (some crossings already smoothed with resolved_at): still link diagrams for every routine
+    for (name, l) in bases.iter().filter(|(_, l)| l.crossing_num() >= 2 && l.crossing_num() <= 7).take(if thorough { 40 } else { 10 }) {
+        let n = l.crossing_num();
+        let i = r.below(n as u64) as usize;
+        let b = yui::bitseq::Bit::from(r.bool());
+        let l2 = l.clone();
+        let Some(pr) = guard(move || l2.resolved_at(i, b)) else { continue };
+        let pr = if n >= 3 && r.bool() { let j = r.below(n as u64 - 1) as usize; let p2 = pr.clone(); guard(move || p2.resolved_at(j, yui::bitseq::Bit::Bit1)).unwrap_or(pr) } else { pr };
+        s.count("partially-resolved");
+        let _ = base_case(&mut s, &format!("{}|resolved_at({},{})", name, i, if b.is_one() { 1 } else { 0 }), &pr, true);
+    }
     // split (disconnected) diagrams: disjoint unions of small pieces with shifted labels — the number of circles of a state can then
     // exceed (number of crossings + 1); the Jones polynomial of a split union is (q + 1/q) · product of the pieces
     {
